@@ -1,9 +1,21 @@
 from __future__ import annotations
 from abc import ABC, abstractmethod
 from math import fabs
+from sys import float_info
 
 
-COMPARISON_TOLERANCE = 1e-12
+COMPARISON_TOLERANCE = 1e-14
+COMPARISON_ABSOLUTE_FLOOR = 1e-300
+
+
+def _tolerance(value_1: float | int, value_2: float | int) -> float:
+    return min(
+        max(
+            COMPARISON_TOLERANCE*max(fabs(value_1), fabs(value_2)),
+            COMPARISON_ABSOLUTE_FLOOR
+        ),
+        float_info.max
+    )
 
 
 class UnitBase(ABC):
@@ -119,9 +131,9 @@ class UnitBase(ABC):
         if self.unit == other.unit:
             return self.value == other.value
         else:
-            return fabs(
-                self.value - other.to(self.unit).value
-            ) < COMPARISON_TOLERANCE
+            other_value = other.to(self.unit).value
+            return fabs(self.value - other_value) <= \
+                _tolerance(self.value, other_value)
 
     def __ne__(self, other: UnitBase) -> None:
         if not isinstance(other, self.__class__) and \
@@ -134,9 +146,9 @@ class UnitBase(ABC):
         if self.unit == other.unit:
             return self.value != other.value
         else:
-            return fabs(
-                self.value - other.to(self.unit).value
-            ) > COMPARISON_TOLERANCE
+            other_value = other.to(self.unit).value
+            return fabs(self.value - other_value) > \
+                _tolerance(self.value, other_value)
 
     def __gt__(self, other: UnitBase) -> None:
         if not isinstance(other, self.__class__) and \
@@ -149,9 +161,9 @@ class UnitBase(ABC):
         if self.unit == other.unit:
             return self.value > other.value
         else:
-            return self.value - other.to(
-                self.unit
-            ).value > COMPARISON_TOLERANCE
+            other_value = other.to(self.unit).value
+            return self.value - other_value > \
+                _tolerance(self.value, other_value)
 
     def __ge__(self, other: UnitBase) -> None:
         if not isinstance(other, self.__class__) and \
@@ -164,9 +176,9 @@ class UnitBase(ABC):
         if self.unit == other.unit:
             return self.value >= other.value
         else:
-            return self.value - other.to(
-                self.unit
-            ).value >= -COMPARISON_TOLERANCE
+            other_value = other.to(self.unit).value
+            return self.value - other_value >= \
+                -_tolerance(self.value, other_value)
 
     def __lt__(self, other: UnitBase) -> None:
         if not isinstance(other, self.__class__) and \
@@ -179,9 +191,9 @@ class UnitBase(ABC):
         if self.unit == other.unit:
             return self.value < other.value
         else:
-            return self.value - other.to(
-                self.unit
-            ).value < -COMPARISON_TOLERANCE
+            other_value = other.to(self.unit).value
+            return self.value - other_value < \
+                -_tolerance(self.value, other_value)
 
     def __le__(self, other: UnitBase) -> None:
         if not isinstance(other, self.__class__) and \
@@ -194,9 +206,9 @@ class UnitBase(ABC):
         if self.unit == other.unit:
             return self.value <= other.value
         else:
-            return self.value - other.to(
-                self.unit
-            ).value <= COMPARISON_TOLERANCE
+            other_value = other.to(self.unit).value
+            return self.value - other_value <= \
+                _tolerance(self.value, other_value)
 
     @property
     @abstractmethod
